@@ -166,7 +166,7 @@ def main():
         }],
         "checks": checks,
         "not_applicable": na,
-        "notes": "All checks are static: they load /repo's current working tree on every run. See DESIGN.md.",
+        "notes": "All checks are static: they load /repo's current working tree on every run. Genuine defects found are repaired in /repo by fix: commits or listed in /verif/known_findings.json (open entries are printed as KNOWN-FINDING lines, exit 0; fixed entries suppress nothing). See DESIGN.md §5, §10.",
     }
     with open("/verif/MANIFEST.json", "w") as f:
         json.dump(m, f, indent=1)
